@@ -30,7 +30,8 @@ theorem decode_encode (h h0 : Hdr) (rest : List Nat) (hwf : WF h) :
   have hg : dst % 65536 < 65536 := Nat.mod_lt _ (by omega)
   have cases8 : flags = 0 ∨ flags = 1 ∨ flags = 2 ∨ flags = 3 ∨ flags = 4 ∨ flags = 5 ∨ flags = 6 ∨ flags = 7 := by omega
   rcases cases8 with rfl | rfl | rfl | rfl | rfl | rfl | rfl | rfl <;>
-    simp [decode, encodeBytes, view, contains, DSIZ_MASK, DSIZ_UNICAST, DSIZ_GROUPCAST, SRC_ADDR_PRESENT,
+    simp [decode, encodeBytes, view, contains, DSIZ_MASK, DSIZ_UNICAST, DSIZ_GROUPCAST, SRC_ADDR_PRESENT, Consts.c17MsgDsizUnicast,
+      Consts.c17MsgDsizGroupcast, Consts.c17MsgSrcPresent,
       e2, hfb, hsb, Rd.u8_cons, Rd.u16_le _ _ hsid, Rd.u32_le _ _ hctr, Rd.u64_le _ _ hsrc, Rd.u64_le _ _ hdst,
       Rd.u16_le _ _ hg, bind, Except.bind, pure, Except.pure, List.append_assoc]
 
@@ -53,11 +54,13 @@ theorem decode_encode_exact (h : Hdr) (rest : List Nat) (hwf : WF h) (hc : Canon
   have hsb : fromBits SEC_FLAGS_ALL sf = .ok sf := fromBits_ok hsf
   have cases8 : flags = 0 ∨ flags = 1 ∨ flags = 2 ∨ flags = 3 ∨ flags = 4 ∨ flags = 5 ∨ flags = 6 ∨ flags = 7 := by omega
   rcases cases8 with rfl | rfl | rfl | rfl | rfl | rfl | rfl | rfl <;>
-    simp [contains, DSIZ_MASK, DSIZ_UNICAST, DSIZ_GROUPCAST, SRC_ADDR_PRESENT] at c1 c2 c3 c4 <;>
+    simp [contains, DSIZ_MASK, DSIZ_UNICAST, DSIZ_GROUPCAST, SRC_ADDR_PRESENT, Consts.c17MsgDsizUnicast,
+      Consts.c17MsgDsizGroupcast, Consts.c17MsgSrcPresent] at c1 c2 c3 c4 <;>
     (try subst c1) <;> (try subst c2) <;>
     (try (have e3 : dst % 65536 = dst := by omega)) <;>
     (try (have hg := Rd.u16_le dst rest c3)) <;>
-    simp [decode, encodeBytes, contains, DSIZ_MASK, DSIZ_UNICAST, DSIZ_GROUPCAST, SRC_ADDR_PRESENT,
+    simp [decode, encodeBytes, contains, DSIZ_MASK, DSIZ_UNICAST, DSIZ_GROUPCAST, SRC_ADDR_PRESENT, Consts.c17MsgDsizUnicast,
+      Consts.c17MsgDsizGroupcast, Consts.c17MsgSrcPresent,
       e2, hfb, hsb, Rd.u8_cons, Rd.u16_le _ _ hsid, Rd.u32_le _ _ hctr, Rd.u64_le _ _ hsrc, Rd.u64_le _ _ hdst,
       bind, Except.bind, pure, Except.pure, List.append_assoc, *]
 
@@ -130,7 +133,7 @@ theorem read_write (r : Report) (hwf : WF r) : read (writeBytes r) = .ok r := by
   obtain ⟨g, pid, pc, data⟩ := r
   obtain ⟨hg, hpid, hpc, _⟩ := hwf
   simp only at hg hpid hpc
-  have hg' : g < 65536 := by simp [GENERAL_CODE_MAX] at hg; omega
+  have hg' : g < 65536 := by simp [GENERAL_CODE_MAX, Consts.c17GeneralCodeMax] at hg; omega
   have hng : ¬ (g > GENERAL_CODE_MAX) := by omega
   simp [read, writeBytes, Rd.u16_le _ _ hg', Rd.u32_le _ _ hpid, Rd.u16_le _ _ hpc, hng,
     bind, Except.bind, pure, Except.pure, List.append_assoc]
